@@ -194,8 +194,16 @@ class C08(core.PropBase):
             ("9" * 4301, "ExpressionError"), ("-" + "9" * 4301, "ExpressionError"), ("1," + "9" * 4301, "ExpressionError"), ("1-" + "9" * 4301, "ExpressionError"),
             ("1-3:" + "1" * 4301, "ExpressionError"), ("9" * 4300, "accepted"), (" " * 5000 + "7", "accepted")]
 
+    # ... and the same question after the PROCESS has changed how many digits int() reads (sys.set_int_max_str_digits, after
+    # the package was imported): what is refused is refused as ExpressionError, and what int() can read now is accepted
+    LIMITED = [(640, "9" * 640, "accepted"), (640, "9" * 641, "ExpressionError"), (640, "-" + "9" * 641, "ExpressionError"), (640, "1-" + "9" * 1000, "ExpressionError"),
+               (640, "1-3:" + "1" * 641, "ExpressionError"), (640, "5," + "9" * 4300, "ExpressionError"), (640, "7", "accepted"),
+               (0, "9" * 4301, "accepted"), (0, "-" + "9" * 5000, "accepted"), (0, "1" + "0" * 4300 + "-1" + "0" * 4299 + "5", "accepted"), (0, "1-3:" + "1" * 4301, "accepted"),
+               (10000, "9" * 4301, "accepted"), (10000, "9" * 10001, "ExpressionError"), (4300, "9" * 4301, "ExpressionError")]
+
     def corpus_cases(self):
-        return [{"s": s} for s in CORPUS] + [{"s": s, "huge": want} for s, want in self.HUGE]
+        return ([{"s": s} for s in CORPUS] + [{"s": s, "huge": want} for s, want in self.HUGE]
+                + [{"s": s, "huge": want, "limit": lim} for lim, s, want in self.LIMITED])
 
     def cases(self, tier, seed):
         rng = random.Random(seed * 7919 + 8)
@@ -257,6 +265,16 @@ class C08(core.PropBase):
         return "," in s or ":" in s or not s.strip().lstrip("-").isdigit()
 
     def impl(self, case):
+        if "limit" in case:
+            old = sys.get_int_max_str_digits()
+            sys.set_int_max_str_digits(case["limit"])
+            try:
+                return self._impl(case)
+            finally:
+                sys.set_int_max_str_digits(old)
+        return self._impl(case)
+
+    def _impl(self, case):
         try:
             r = IntRangeExpr.from_str(case["s"])
         except BaseException as e:  # noqa: BLE001
